@@ -52,6 +52,8 @@ LIFTS = [
     dict(name="plainBuilder", file="src/core.go", func="Run", contains="item.text, item.colors = ansiProcessor(data)", pkg="./src"),
     dict(name="nthBuilder", file="src/core.go", func="Run", contains="item.origText = &data", pkg="./src"),
     dict(name="walkFn", file="src/reader.go", func="readFiles", contains="filepath.SkipDir", pkg="./src"),
+    dict(name="ansiColored", file="src/core.go", func="Run", contains="lineAnsiState = newState", pkg="./src"),
+    dict(name="ansiPlain", file="src/core.go", func="Run", contains="extractColor(byteString(data), nil, nil)", pkg="./src"),
     dict(name="doAction", file="src/terminal.go", func="Loop", contains="Keep track of the current query before the action is executed", pkg="./src"),
     dict(name="toggle", file="src/terminal.go", func="Loop", contains="t.toggleItem(current)", pkg="./src"),
 ]
